@@ -269,7 +269,7 @@ class Runner:
         self.mpi_runs = 0
         self.fail_sites = {}
 
-    def convert(self, base, n, lo_hi, outs, s, scale):
+    def convert(self, base, n, outs, s, scale):
         """per-rank outputs -> per-rank chunks of sel (up, dn), fixed-point weights, and the exact sum"""
         uhf = base in ("jit_uhf", "mpi_uhf") or base.startswith("prop_u")
         mult = Fraction(n * 2 ** s) / Fraction(scale)
@@ -329,7 +329,7 @@ class Runner:
             if commspec is None or commspec == "nac":
                 comm = lib.config.not_a_comm() if commspec == "nac" else None
                 out = lib.call(base, 0, n, wts, zeta, comm=comm, key=key)
-                return self.convert(base, n, None, [out], s, scale)
+                return self.convert(base, n, [out], s, scale)
             ranks = int(commspec[1:])
             uhf = base in ("mpi_uhf", "prop_u.global")
             sched, eager = self.picker.next(ranks, uhf)
@@ -349,7 +349,7 @@ class Runner:
                                    f"{name}: the ranks' collectives do not match / cannot complete "
                                    f"({rr.describe()}); collectives issued per rank: {info['ops_per_rank']}", info)
                 return None
-            run = self.convert(base, n, None, rr.results, s, scale)
+            run = self.convert(base, n, rr.results, s, scale)
             run["ops"] = [[o[0] for o in ops] for ops in rr.ops]
             return run
         except MachineryError:
@@ -441,7 +441,7 @@ def replay_states(chk: Check, lib: Lib, picker, states, rng):
     runner = Runner(chk, lib, picker)
     records, meta = [], {}
     quick = chk.tier == "quick"
-    p_thread = {1: 0.02, 2: 0.05, 3: 0.12, 4: 0.06} if quick else {1: 0.1, 2: 0.4, 3: 0.6, 4: 0.4}
+    p_thread = {1: 0.02, 2: 0.05, 3: 0.12, 4: 0.06} if quick else {1: 0.05, 2: 0.25, 3: 0.5, 4: 0.25}
     keypool, pool_zeta = key_pool(lib, chk.seed)
     pool_frac = [Fraction(float(z)) for z in pool_zeta]
     verified = set()
